@@ -217,6 +217,30 @@ func realEntries(w *lib.Writer, r *rand.Rand) {
 			parent = e
 		}
 		s := submitted{precert: r.Intn(2) == 0, quirk: "none"}
+		if i%8 == 3 {
+			// a trusted root submitted on its own: the validated path is that one certificate, the
+			// chain after it is EMPTY (extra_data is the encoding of an empty certificate_chain)
+			s.precert, s.quirk = false, "root-alone"
+			s.leaf, s.issuer = root.DER, root.Cert.RawSubjectPublicKeyInfo
+			at := time.Date(2024, 5, 6, 7, 8, 9, 0, time.UTC).Add(time.Duration(i)*time.Hour + time.Duration(r.Intn(1e9)))
+			s.ms = uint64(at.UnixNano() / 1e6)
+			okAll := true
+			for _, in := range insts {
+				in.env.Clock.Set(at)
+				if rec := in.env.AddChain(false, [][]byte{root.DER}); rec.Code != 200 {
+					okAll = false
+					w.Add(lib.Case{Coq: "CGet 1 false PBad PBad (RCode 0) 400 None []", Key: fmt.Sprintf("entries-add-%d-%s", i, in.name),
+						Input:  map[string]interface{}{"op": "add", "instance": in.name, "quirk": s.quirk},
+						Impl:   map[string]interface{}{"status": rec.Code, "body": rec.Body.String()},
+						PropOK: false, Note: fmt.Sprintf("a trusted root submitted on its own was answered %d", rec.Code), Tags: []string{"entries:add-refused"}})
+				}
+			}
+			if !okAll {
+				return
+			}
+			subs = append(subs, s)
+			continue
+		}
 		o := pki.Opts{CN: fmt.Sprintf("entry-%d.example", i), KeyIdx: 5, DNSNames: []string{fmt.Sprintf("entry-%d.example", i)}}
 		if r.Intn(3) == 0 {
 			q := quirks[r.Intn(len(quirks))]
